@@ -390,6 +390,41 @@ func genPurity(out string, root, helpers *pkgFiles) {
 	sb.WriteString("]\n")
 	fmt.Fprintf(&sb, "def nodePoolPuts : Nat := %d\n", countCalls(helpers, "nodePool.Put"))
 
+	// helpers.DeepCloneNode: the clone owns its attribute list (a fresh backing array), so appending to a clone's attributes
+	// (evalVHtml, evalVText, replaceWithInclude) can never write into the array of the cached node it was cloned from
+	attrsCopied := false
+	if fd := helpers.fn("DeepCloneNode"); fd != nil {
+		assigns, fresh := 0, 0
+		ast.Inspect(fd.Body, func(n ast.Node) bool {
+			as, ok := n.(*ast.AssignStmt)
+			if !ok || len(as.Lhs) != 1 || len(as.Rhs) != 1 {
+				return true
+			}
+			if sel, ok := as.Lhs[0].(*ast.SelectorExpr); !ok || sel.Sel.Name != "Attr" {
+				return true
+			}
+			assigns++
+			if ce, ok := as.Rhs[0].(*ast.CallExpr); ok {
+				f := exprString(ce.Fun)
+				if f == "append" && len(ce.Args) == 2 && ce.Ellipsis.IsValid() {
+					first := types.ExprString(ce.Args[0])
+					if first == "[]html.Attribute(nil)" || first == "[]html.Attribute{}" || strings.HasPrefix(first, "make(") {
+						fresh++
+					}
+				}
+				if f == "slices.Clone" {
+					fresh++
+				}
+			}
+			return true
+		})
+		attrsCopied = assigns > 0 && assigns == fresh
+	} else {
+		fail("purity", fmt.Errorf("helpers.DeepCloneNode not found"))
+	}
+	fmt.Fprintf(&sb, "/-- DeepCloneNode gives the clone a freshly allocated attribute list -/\ndef deepCloneCopiesAttrs : Bool := %s\n", b2l(attrsCopied))
+	rep.Facts["deepCloneCopiesAttrs"] = b2l(attrsCopied)
+
 	// NewVueContext: the v-once bookkeeping map is made for this context (not taken from a pool / a shared variable)
 	seenFresh := false
 	if fd := root.fn("NewVueContext"); fd != nil {
